@@ -2,6 +2,7 @@ package main
 
 import (
 	"fmt"
+	"go/token"
 	"strings"
 
 	"golang.org/x/tools/go/ssa"
@@ -24,7 +25,7 @@ func init() {
 func runC11(c *Ctx) {
 	L, P := c.L, c.P
 	L.Rule("R-C11-GROWFIRST", "Grow(n) dominates every write/claim; offset advances by the same n", 4)
-	L.Rule("R-C11-GROW", "max-size refusal first (also before the no-op return); copy-before-free; storage sized by updated curSz; no-op on offset+n < curSz", 5)
+	L.Rule("R-C11-GROW", "max-size refusal first (also before the no-op return); copy-before-free; storage sized by updated curSz; no-op on offset+n < curSz; growth amount floored by n last", 6)
 	L.Rule("R-C11-CODEC", "length prefix width agrees at all six sites and equals the big-endian uint64 codec width", 6)
 	L.Rule("R-C11-ITER", "SliceIterate skips only empty slices, propagates errors; Slice's next/-1 logic", 3)
 	L.Rule("R-C11-SORTCOPY", "sortSmall writes back exactly [start,end); merge copies the remainder", 2)
@@ -176,7 +177,60 @@ func runC11(c *Ctx) {
 		if curStore == nil {
 			return
 		}
-		// growth amount at least n: curSz += growBy with growBy = φ(... n ...): accept any growBy ≥ n by shape max(curSz+n capped, n)
+		// growth amount at least n: curSz += growBy where growBy = max(n, <capped amount>), the floor applied LAST
+		// (capping after the floor under-allocates a single request above the cap)
+		func() {
+			bo, isBin := curStore.Val.(*ssa.BinOp)
+			if !isBin || bo.Op != token.ADD {
+				L.Undecided("R-C11-GROW", "Buffer.Grow#atleast", "curSz is not updated by an addition: "+tb.T(curStore.Val).String(), curStore.Pos())
+				return
+			}
+			g := bo.Y
+			if Match("fld[curSz](p[0])", tb.T(g), nil) {
+				g = bo.X
+			}
+			gt := tb.T(g)
+			if gt.Op == "call" && gt.Sym == "max" && strings.Contains(gt.String(), "p[1]") {
+				L.Ok("R-C11-GROW", "Buffer.Grow#atleast", "growth amount is max(n, …)", curStore.Pos())
+				return
+			}
+			phi, isPhi := g.(*ssa.Phi)
+			if !isPhi || len(phi.Edges) != 2 {
+				L.Undecided("R-C11-GROW", "Buffer.Grow#atleast", "growth amount "+gt.String()+" is not of the form `if n > growBy { growBy = n }` applied last", curStore.Pos())
+				return
+			}
+			ni := -1
+			for i, e := range phi.Edges {
+				if tb.T(e).String() == "p[1]" {
+					ni = i
+				}
+			}
+			if ni < 0 {
+				L.Fail("R-C11-GROW", "Buffer.Grow#atleast", "the amount added to curSz ("+gt.String()+") is not floored by n as the last step: a request larger than the cap grows the buffer by less than it needs and the following write lands beyond the storage", curStore.Pos())
+				return
+			}
+			oi := 1 - ni
+			x := tb.T(phi.Edges[oi]).String()
+			pred := phi.Block().Preds[oi]
+			iff := lastIf(pred)
+			ok := false
+			if iff != nil {
+				for _, pat := range []string{"lt(" + x + ",p[1])", "le(" + x + ",p[1])"} {
+					pol := condPolarity(tb.T(iff.Cond), pat, nil)
+					if pol == 0 {
+						continue
+					}
+					falseSucc := 1
+					if pol < 0 {
+						falseSucc = 0
+					}
+					if pred.Succs[falseSucc] == phi.Block() {
+						ok = true
+					}
+				}
+			}
+			L.Check(ok, "R-C11-GROW", "Buffer.Grow#atleast", "curSz += max(n, capped amount): the floor `n > growBy ⇒ growBy = n` is the last adjustment", "the un-floored amount "+x+" reaches `curSz +=` on an edge that does not establish n <= "+x, curStore.Pos())
+		}()
 		// every storage handed to b.buf is sized by curSz after the update and the prefix is copied first
 		for _, st := range fieldStoresIn(fn, "Buffer", "buf") {
 			vt := tb.T(st.Val)
